@@ -533,6 +533,55 @@ def read_pep517_wrapped() -> bool:
     return False
 
 
+def read_extractor_state() -> Any:
+    """extractor.py: every attribute of an Extractor that is MUTATED after construction (subscript store,
+    .append/.update/... on self.<attr>) must be per-instance state: assigned a fresh literal in
+    Extractor.__init__ and never given a value at class level (a class-level {} is ONE object shared by every
+    extractor of the process).  Returns (mutated attributes, all fresh?)."""
+    mod = T.parse("req_compile/metadata/extractor.py")
+    cls = T.klass(mod, "Extractor")
+    subclasses = [n for n in mod.body if isinstance(n, ast.ClassDef) and any(_safe_chain(b) == "Extractor" for b in n.bases)]
+    mutated = set()
+    for c in [cls] + subclasses:
+        for node in ast.walk(c):
+            tgt = None
+            if isinstance(node, (ast.Assign, ast.AugAssign, ast.AnnAssign)):
+                for t in (node.targets if isinstance(node, ast.Assign) else [node.target]):
+                    if isinstance(t, ast.Subscript) and isinstance(t.value, ast.Attribute) and _safe_chain(t.value.value) == "self":
+                        mutated.add(t.value.attr)
+            if isinstance(node, ast.Call) and isinstance(node.func, ast.Attribute) and node.func.attr in (
+                    "append", "extend", "update", "add", "setdefault", "pop", "clear", "insert", "remove") \
+                    and isinstance(node.func.value, ast.Attribute) and _safe_chain(node.func.value.value) == "self":
+                mutated.add(node.func.value.attr)
+    if "renames" not in mutated:
+        raise TranslateError("extractor.py: Extractor.add_rename no longer stores into self.renames")
+    init = T.func(cls, "__init__")
+    fresh_in_init = {}
+    for node in ast.walk(init):
+        tgt = val = None
+        if isinstance(node, ast.Assign) and len(node.targets) == 1:
+            tgt, val = node.targets[0], node.value
+        elif isinstance(node, ast.AnnAssign) and node.value is not None:
+            tgt, val = node.target, node.value
+        if isinstance(tgt, ast.Attribute) and _safe_chain(tgt.value) == "self":
+            fresh_in_init[tgt.attr] = isinstance(val, (ast.Dict, ast.List, ast.Set)) and not getattr(val, "keys", getattr(val, "elts", []))
+    class_level = set()
+    for c in [cls] + subclasses:
+        for st in c.body:
+            if isinstance(st, ast.Assign):
+                class_level |= {t.id for t in st.targets if isinstance(t, ast.Name)}
+            elif isinstance(st, ast.AnnAssign) and st.value is not None and isinstance(st.target, ast.Name):
+                class_level.add(st.target.id)
+    # the concrete extractors must run Extractor.__init__
+    for c in subclasses:
+        ci = [n for n in c.body if isinstance(n, ast.FunctionDef) and n.name == "__init__"]
+        if ci and not any(isinstance(n, ast.Call) and isinstance(n.func, ast.Attribute) and n.func.attr == "__init__"
+                          and "super" in ast.dump(n.func.value) for n in ast.walk(ci[0])):
+            raise TranslateError(f"extractor.py: {c.name}.__init__ does not call Extractor.__init__")
+    fresh = all(fresh_in_init.get(a, False) and a not in class_level for a in mutated)
+    return sorted(mutated), fresh
+
+
 def generate_frame() -> str:
     steps, begin, ctx, ctx_ok, restored, pep_patch = read_frame()
     out = FRAME_HEADER
@@ -543,4 +592,7 @@ def generate_frame() -> str:
     out += f"Definition ctx_restored_in_finally : bool := {'true' if ctx_ok else 'false'}.\n"
     out += f"Definition pep517_chdir_restored_in_finally : bool := {'true' if restored else 'false'}.\n"
     out += f"Definition pep517_failure_wrapped : bool := {'true' if read_pep517_wrapped() else 'false'}.\n"
+    mutated, fresh = read_extractor_state()
+    out += "Definition extractor_mutable_attrs : list string := [" + "; ".join(cs(x) for x in mutated) + "].\n"
+    out += f"Definition extractor_state_fresh_per_analysis : bool := {'true' if fresh else 'false'}.\n"
     return out
